@@ -5,7 +5,7 @@ MAXW = (1 << 64) - 1
 
 class Case:
     def __init__(self, cid, kind, vals=None, start=0, stop=0, script=None, hint="inexact", adapt="none",
-                 threads=None, owner="drop", sched=None, frozen=None, iters=1, mode="release", clonepanic=None, droppanic=None, zst=False, tags=None, pod=False, spare=0, inpanic=None, clonepoint=False):
+                 threads=None, owner="drop", sched=None, frozen=None, iters=1, mode="release", clonepanic=None, droppanic=None, zst=False, tags=None, pod=False, spare=0, inpanic=None, clonepoint=False, rawskip=False, clonefrom=False):
         self.id = cid
         self.kind = kind            # slice vecref arrref vec array range iter iterref
         self.vals = list(vals or [])
@@ -24,6 +24,8 @@ class Case:
         self.zst = zst                  # zero-sized elements (slice / vec / array; payloads all 0)
         self.pod = pod                  # `Copy` elements without drop glue (vec / array): no destruction is observable
         self.spare = spare              # unused capacity of the consumed vector (vec)
+        self.clonefrom = clonefrom      # `clone j` = `Clone::clone_from` onto an iterator that is ahead of the source
+        self.rawskip = rawskip          # `skip` = the public `AtomicIter::early_exit` instead of `skip_to_end`
         self.clonepoint = clonepoint    # `Clone::clone` of an element is a scheduling point (impl-only cases)
         self.inpanic = list(inpanic or [])   # threads whose ops run inside a destructor during an unrelated unwinding
         self.tags = set(tags or [])
@@ -119,6 +121,10 @@ class Case:
             L.append("inpanic %s" % " ".join(map(str, self.inpanic)))
         if self.clonepoint:
             L.append("clonepoint")
+        if self.rawskip:
+            L.append("rawskip")
+        if self.clonefrom:
+            L.append("clonefrom")
         if self.adapt != "none":
             L.append("adapt %s" % self.adapt)
         L.append("mode %s" % self.mode)
@@ -189,6 +195,10 @@ def parse_cases(text):
             cur.inpanic = [int(x) for x in toks[1:]]
         elif toks[0] == "clonepoint":
             cur.clonepoint = True
+        elif toks[0] == "rawskip":
+            cur.rawskip = True
+        elif toks[0] == "clonefrom":
+            cur.clonefrom = True
         elif toks[0] == "thread":
             head, _, prog = line.partition(":")
             t = int(head.split()[1])
